@@ -448,7 +448,51 @@ def r10_4(ctx, prog, crate):
     ctx.anchor("R10.4", "tally/clear call sites", n, 8)
 
 
+def r10_5(ctx, prog, crate):
+    """'Since its tally was last cleared': ThreadAllocInfo::clear resets EVERYTHING, unconditionally - one path, no test,
+    the whole struct overwritten with new(); new() is all zeroes (running totals, maxima and every per-operation tally).
+    A clear that is skipped for some state lets counts from before the clearing point survive."""
+    b = prog.body("alloc::ThreadAllocInfo::clear", crate)
+    if ctx.anchor("R10.5", "ThreadAllocInfo::clear", 1 if b else 0, 1):
+        ctx.saw(b)
+        sums = PathEval(b).run()
+        ok = sums is not None and len(sums) == 1 and not sums[0].conds
+        ctx.check(ok, "R10.5", ["clear", "unconditional"], "clear() has %s paths / tests state before resetting: %s" % (
+            len(sums) if sums is not None else "unsummarisable", [c for s in (sums or []) for c in s.conds][:3]), b.where(0))
+        for sm in sums or []:
+            v = sm.mem.get((1, ()))
+            whole = v is not None and v[0] == "site" and v[1] == "alloc::ThreadAllocInfo::new"
+            # or field by field: every field of the struct written with 0 / a fresh map
+            ctx.check(whole and set(sm.mem) == {(1, ())}, "R10.5", ["clear", "whole-struct-from-new"],
+                      "clear() leaves %s (expected *self = Self::new())" % {str(k): show(x) for k, x in sm.mem.items()}, b.where(sm.blocks[-1]))
+    nb = prog.body("alloc::ThreadAllocInfo::new", crate)
+    adt = prog.adt("alloc::ThreadAllocInfo", crate)
+    if ctx.anchor("R10.5", "ThreadAllocInfo::new + ADT", (1 if nb else 0) + (1 if adt else 0), 2):
+        sums = PathEval(nb).run()
+        ok = sums is not None and len(sums) == 1 and sums[0].ret[0] == "adt"
+        if ok:
+            r = sums[0].ret
+            fields = dict(zip(r[4], r[3]))
+            want = [f["name"] for f in adt["variants"][0]["fields"]]
+            ok = sorted(fields) == sorted(want)
+            for f, v in fields.items():
+                if f == "tallies":
+                    ok = ok and v[0] == "site" and v[1] == "alloc::AllocOpMap::new"
+                else:
+                    ok = ok and v == ("int", 0)
+        ctx.check(ok, "R10.5", ["new", "all-zero"], "ThreadAllocInfo::new() is not { tallies: AllocOpMap::new(), every counter 0 }: %s" % (show(sums[0].ret) if sums else None), nb.where(0))
+    mb = prog.body("alloc::AllocOpMap::new", crate)
+    if ctx.anchor("R10.5", "AllocOpMap::new", 1 if mb else 0, 1):
+        # all-zero bytes (mem::zeroed / [0; N] transmuted) or default tallies
+        txt = " ".join(str(s["rv"]) for bi, si, s in mb.stmts() if s["k"] == "assign")
+        calls = [c.callee for c in mb.live_calls()]
+        zero = ("const 0_u8" in txt and "Repeat" in txt or "[const 0_" in txt) or any(c.endswith(("mem::zeroed", "MaybeUninit::zeroed", "Default>::default", "Default::default")) for c in calls)
+        nonzero = [c for c in calls if not c.endswith(("mem::zeroed", "MaybeUninit::zeroed", "assume_init", "Default>::default", "Default::default", "transmute"))]
+        ctx.check(zero and not nonzero, "R10.5", ["AllocOpMap::new", "all-zero"], "AllocOpMap::new() is not an all-zero map (calls %s)" % calls, mb.where(0))
+
+
 def run(ctx, prog, crate):
+    r10_5(ctx, prog, crate)
     r10_1(ctx, prog, crate)
     r10_2(ctx, prog, crate)
     r10_3(ctx, prog, crate)
